@@ -1,5 +1,5 @@
 """Bounded stand-in for C45 (LHAPDF export of evolved PDFs is self-consistent): `deal` run-time contracts on the REAL evolution helper and writers, over a tiny
-card pair (LO, 5 grid points, targets (3 GeV, nf=4), (5 GeV, nf=4), (10 GeV, nf=5)) and a toy PDF.  Runs natively.  Prints one JSON line per obligation.
+card pair (LO, 5 grid points, targets (3 GeV, nf=4), (5 GeV, nf=4), (5 GeV, nf=5), (10 GeV, nf=5): unsorted in the card, one scale in both flavour patches) and a toy PDF.  Runs natively.  Prints one JSON line per obligation.
 
 Contracts
   written(variant)   evolve_pdfs(members, theory, operator, path=<solved once>, targetgrid=<variant>) writes a set whose data files contain, per flavour-number block,
@@ -67,7 +67,7 @@ def tiny_cards():
     th.order = (1, 0)
     op = cards.example.operator()
     op.init = (1.65, 4)
-    op.mugrid = [(10.0, 5), (3.0, 4), (5.0, 4)]
+    op.mugrid = [(10.0, 5), (3.0, 4), (5.0, 4), (5.0, 5)]      # unsorted, and one scale listed in both flavour patches (allowed at a patch boundary)
     op.xgrid = interpolation.XGrid([1e-2, 0.1, 0.3, 0.6, 1.0])
     op.configs.interpolation_polynomial_degree = 2
     op.configs.n_integration_cores = 1
